@@ -234,6 +234,12 @@ def cases_C05(tier, seed):  # noqa: F811
             for tmpl in ('select %s from t1; select 2 from t2', 'select 1; select %s; select 3',
                          'insert into t values (%s); select 2'):
                 yield ('count', tmpl % (q + b + q), tmpl.count(';') + 1)
+    # DDL statements with IF [NOT] EXISTS in front of further statements (the word IF outside any routine body)
+    for ddl in ('create table if not exists t (a int)', 'CREATE INDEX IF NOT EXISTS ix1 ON t (a)', 'drop table if exists t',
+                'create view if not exists v as select 1', 'CREATE SCHEMA IF NOT EXISTS s'):
+        for sep in ('; ', ';\n'):
+            yield ('count', ddl + sep + 'insert into t values (1)' + sep + 'select a from t', 3)
+            yield ('count', 'select 0' + sep + ddl + sep + 'select (1; 2) from t;', 3)
     yield from _base_cases_C05(tier, seed)
 
 
@@ -266,6 +272,19 @@ def cases_C17(tier, seed):  # noqa: F811
         for t in tails:
             for sep in (';\n', '; '):
                 yield ('count17', p_ + sep + sep.join(t) + ';', 1 + len(t), p_)
+    # statements inside a body that contain the word IF without being an IF block: DDL with IF [NOT] EXISTS, the IF()
+    # function; followed by further statements in the body and behind the routine
+    inner = ['drop table if exists t', 'DROP VIEW IF EXISTS v', 'create table if not exists t (a int)',
+             'CREATE INDEX IF NOT EXISTS ix1 ON t (a)', 'set x = if(a > b, 1, 2)', 'select IF(a, b, c) into y from t',
+             'update t set a = if(b = 1, 2, 3) where c = 4']
+    hdrs = ['create procedure p()', 'CREATE OR REPLACE FUNCTION f() RETURNS int', 'create trigger tr']
+    for h in hdrs:
+        for st_ in inner:
+            for before, after in ((), ()), (('select 1',), ('select 2',)), (('if c then y := 1; end if',), ('return 3',)):
+                body = list(before) + [st_] + list(after)
+                for sep in ('; ', ';\n'):
+                    proc = h + ' begin ' + sep.join(body) + sep.rstrip() + ' end'
+                    yield ('count17', proc + sep + 'select 8' + sep + 'select 9;', 3, proc)
     yield from _base_cases_C17(tier, seed)
 
 
@@ -340,3 +359,17 @@ def cases_C08(tier, seed):  # noqa: F811
             for opts in ((('strip_comments', True),), (('keyword_case', 'upper'),), (('truncate_strings', 3),)):
                 yield (tmpl.replace('%s', ch), opts)
     yield from _base_cases_C08(tier, seed)
+
+
+# ---- C10: an operator or comparison directly followed (or followed after one blank) by another operator
+_base_cases_C10 = cases_C10  # noqa: F821
+
+
+def cases_C10(tier, seed):  # noqa: F811
+    for expr in ('a=-b', 'x<>-y', 'z>=+k', 'a - -b', 'a+-b*-c', 'a = -b', 'p||-q', 'a/-1', 'a<-1 and b>+2'):
+        for tmpl in ('select %s from t', 'select 1 from t where %s', 'select f(%s), (%s) from t', 'update t set a = 1 where %s'):
+            for opts in ((('use_space_around_operators', True),),
+                         (('use_space_around_operators', True), ('strip_whitespace', True)),
+                         (('use_space_around_operators', True), ('reindent', True))):
+                yield (tmpl.replace('%s', expr), opts)
+    yield from _base_cases_C10(tier, seed)
